@@ -490,9 +490,8 @@ class Z3Dom:
         if isinstance(v, Cx):
             return [_real(zconst(v.re)), _real(zconst(v.im))]
         if isinstance(v, (Arr, Arr2)):
-            if v.ident is None:
-                raise Unsupported("array without identity passed to an opaque function")
-            return [_real(zconst(v.ident))]
+            ident = v.ident if v.ident is not None else self.ext_identity(v)
+            return [_real(zconst(ident))]
         if isinstance(v, (tuple, list)):
             out = []
             for x in v:
